@@ -3,6 +3,7 @@ package main
 import (
 	"fmt"
 	"math"
+	"time"
 
 	"github.com/uber-go/tally/v4/m3"
 	m3thrift "github.com/uber-go/tally/v4/m3/thrift/v2"
@@ -148,6 +149,13 @@ func c16Case(c *mon.Ctx, r *mon.Rand, encs map[m3.Protocol]*encoder, calcs map[m
 		p = m3.Binary
 	}
 	enc, calc := encs[p], calcs[p]
+	if c != nil {
+		// encoding and decoding in-memory structures takes microseconds: a call that
+		// has not returned after a minute is a hang (a decoder that loops on input it
+		// cannot make progress on), not a slow machine
+		stop := c.Watchdog(60*time.Second, "encode-or-decode-does-not-return/"+protoName(p), "thrift round trip of generated metrics and batches")
+		defer stop()
+	}
 	viol := func(sig string, d map[string]interface{}) {
 		if c != nil {
 			d["protocol"] = protoName(p)
